@@ -38,7 +38,7 @@ SERIES_THEOREMS = [
     "Atomica.C06.previous_prefix",
     "Atomica.C06.previous_prefix_needs_point",
 ]
-PIPE_LEAN_MODS = ["AtomicaProofs.Properties.C06Params", "AtomicaProofs.Properties.C13Closed"]
+PIPE_LEAN_MODS = ["AtomicaProofs.Properties.C06Params", "AtomicaProofs.Properties.C13Closed", "AtomicaProofs.Properties.C03ClosedExt"]
 PIPE_THEOREMS = [
     "Atomica.C06.precedence_program",
     "Atomica.C06.precedence_function",
@@ -62,6 +62,10 @@ PIPE_THEOREMS = [
     "Atomica.C13.closedprog_no_covouts",
     "Atomica.C13.parVal_is_evalOne",
     "Atomica.C13.evalParsP_clipped",
+    # closed loop: inside a skip window the scenario value stands (clipped), whatever the function says; derivative parameters follow the Euler recurrence on the same-index values
+    "Atomica.C03.closed_skip_uses_data",
+    "Atomica.C03.closed_derivative_step",
+    "Atomica.C03.closed_derivative_value",
 ]
 LEAN_MODS = list(SERIES_LEAN_MODS) + PIPE_LEAN_MODS
 THEOREMS = list(SERIES_THEOREMS) + PIPE_THEOREMS
